@@ -2277,7 +2277,7 @@ pub fn array_values(
         .set_property(index_key, JsValue::Number(0.0));
 
     // Add next() method
-    let next_fn = interp.create_native_function("next", array_iterator_next, 0);
+    let next_fn = interp.create_native_function_in(&guard, "next", array_iterator_next, 0);
     guard.guard(next_fn.cheap_clone());
     iter_obj
         .borrow_mut()
@@ -2288,7 +2288,7 @@ pub fn array_values(
     let iterator_symbol =
         crate::value::JsSymbol::new(well_known.iterator, Some(interp.intern("Symbol.iterator")));
     let iterator_key = PropertyKey::Symbol(Box::new(iterator_symbol));
-    let self_fn = interp.create_native_function("[Symbol.iterator]", return_this, 0);
+    let self_fn = interp.create_native_function_in(&guard, "[Symbol.iterator]", return_this, 0);
     guard.guard(self_fn.cheap_clone());
     iter_obj
         .borrow_mut()
